@@ -62,6 +62,55 @@ def configs(ctx):
     return out
 
 
+def hof_replay_traces(ctx, tid0):
+    """update_hof of the real solver class driven directly with synthetic (score, circuit) populations, including near
+    ties (scores 1 - 2^-k from k = 6 on are within 1 % of each other, 0.5 and 0.5 + 1e-9 are 'equal' for numpy.isclose)."""
+    import numpy as np
+    from graphiq.circuit.circuit_dag import CircuitDAG
+    from graphiq.circuit import ops
+    from graphiq.metrics import Infidelity
+    from graphiq.solvers.evolutionary_solver import EvolutionarySolver, EvolutionarySolverSetting
+    from engine import circuits as cz
+    rng = ctx.rng
+    g = nx.path_graph(2)
+    target = cz.target_state(g, "s")
+    pool = [0.0, 0.25, 0.5, 0.5 + 1e-9, 0.75, 0.96875, 0.984375, 0.9921875, 0.99609375, 1.0, 100 / 101, 0.99, 0.995]
+
+    def circuit_of(k):
+        c = CircuitDAG(n_emitter=1, n_photon=1, n_classical=1)
+        for _ in range(k):
+            c.add(ops.Hadamard(register=0, reg_type="e"))
+        return c
+
+    def obs(hof):
+        return [{"score": child.INF, "size": 0} if c is None else {"score": child.fix(s), "size": len(c.dag.nodes)} for s, c in hof]
+    traces = []
+    for t in range(12 if ctx.quick else 200):
+        n_hof = rng.choice([2, 3, 5])
+        events = []
+        try:
+            solver = EvolutionarySolver(target=target, metric=Infidelity(target), compiler=child.make_compiler("stabilizer"),
+                                        n_emitter=1, n_photon=2,
+                                        solver_setting=EvolutionarySolverSetting(n_hof=n_hof, n_pop=4, n_stop=2))
+            solver.hof = [(np.inf, None) for _ in range(n_hof)]
+            for _ in range(rng.randint(2, 5)):
+                pop = [(rng.choice(pool), circuit_of(rng.randint(0, 4))) for _ in range(rng.randint(1, 5))]
+                before = obs(solver.hof)
+                e = {"ev": "update_hof", "err": "", "before": before,
+                     "pop": [{"score": child.fix(s), "size": len(c.dag.nodes)} for s, c in pop], "after": []}
+                try:
+                    solver.update_hof(pop)
+                    e["after"] = obs(solver.hof)
+                except Exception as ex:
+                    e["err"] = type(ex).__name__
+                events.append(e)
+        except Exception as ex:
+            events.append({"ev": "update_hof", "err": "Setup:" + type(ex).__name__, "before": [], "pop": [], "after": []})
+        traces.append({"tid": tid0 + t + 1, "solver": "update_hof", "meta": {"kind": "update_hof replay", "n_hof": n_hof},
+                       "events": events})
+    return traces
+
+
 def run(ctx):
     ctx.mc("MC_Evo", EVO_CFG.format(ngen=2 if ctx.quick else 3), tag="copies")
     traces = []
@@ -80,3 +129,6 @@ def run(ctx):
                                          "twins_x": [x["final"] for x in xs]}]
             traces.append({"tid": i + 1, "meta": cfg, "solver": cfg["solver"], "events": events})
     ctx.judge("Trace_Evo", traces, label="J: real solver runs, per generation, with twins")
+    hof = hof_replay_traces(ctx, len(traces))
+    ctx.judge("Trace_Evo", hof, label="G: update_hof driven directly with synthetic populations (near ties included)")
+    ctx.extra["update_hof_calls"] = sum(len(t["events"]) for t in hof)
